@@ -17,6 +17,7 @@ class _Plain(Model):
 def bind(lib):
     _CUR['lib'] = lib
     _CUR['map'] = {}
+    _CUR['skeleton'] = {}
 
 
 def _learn(lib, adt):
@@ -41,13 +42,28 @@ def _learn(lib, adt):
             return dict(IDENT)
         out = {}
         for r in roles:
-            names = [f for f, val in v.fields.items() if deref_all(val) is mark[r]]
-            if len(names) != 1:
+            paths = _find(v, mark[r], ())
+            if len(paths) != 1:
                 return dict(IDENT)
-            out[r] = names[0]
+            out[r] = paths[0][0] if len(paths[0]) == 1 else paths[0]
+        if any(isinstance(p, tuple) for p in out.values()):
+            _CUR.setdefault('skeleton', {})[adt] = v          # nested private aggregates: remember their type names
         return out
     except (Unsupported, Diverge, KeyError):
         return dict(IDENT)
+
+
+def _find(v, marker, prefix, depth=0):
+    """every field path inside the value `v` that holds `marker`"""
+    v = deref_all(v)
+    if v is marker:
+        return [prefix]
+    if isinstance(v, Enum) and depth < 4:
+        out = []
+        for f, val in v.fields.items():
+            out += _find(val, marker, prefix + (f,), depth + 1)
+        return out
+    return []
 
 
 def field(adt, role):
@@ -60,10 +76,32 @@ def field(adt, role):
     return _CUR['map'][adt].get(role, role)
 
 
+def _path(adt, role):
+    p = field(adt, role)
+    return p if isinstance(p, tuple) else (p,)
+
+
 def make(adt, **parts):
-    """a value of `adt` whose fields hold the given parts (by role)"""
-    return Enum(adt, adt, {field(adt, r): v for r, v in parts.items()})
+    """a value of `adt` whose fields hold the given parts (by role); parts kept in a private nested aggregate are put there"""
+    out = Enum(adt, adt, {})
+    skel = _CUR.get('skeleton', {}).get(adt)
+    for r, v in parts.items():
+        path = _path(adt, r)
+        cur, sk = out, skel
+        for f in path[:-1]:
+            sk = deref_all(sk.fields[f]) if isinstance(sk, Enum) and f in sk.fields else None
+            if f not in cur.fields:
+                cur.fields[f] = Enum(sk.adt, sk.variant, {}) if isinstance(sk, Enum) else Enum('?', '?', {})
+            cur = cur.fields[f]
+        cur.fields[path[-1]] = v
+    return out
 
 
 def part(value, adt, role):
-    return value.fields.get(field(adt, role)) if isinstance(value, Enum) else None
+    cur = value
+    for f in _path(adt, role):
+        cur = deref_all(cur) if cur is not None else None
+        if not isinstance(cur, Enum):
+            return None
+        cur = cur.fields.get(f)
+    return cur
